@@ -14,7 +14,13 @@ def main():
     modname, fn = sys.argv[1], sys.argv[2]
     arg = json.loads(sys.stdin.read())
     mod = importlib.import_module(modname)
-    out = getattr(mod, fn)(arg)
+    from sim.harness import _reach_start, _reach_stop
+
+    cov = _reach_start()
+    try:
+        out = getattr(mod, fn)(arg)
+    finally:
+        _reach_stop(cov)
     sys.stdout.write("\n@@RESULT@@" + json.dumps(out) + "\n")
 
 
